@@ -13,7 +13,10 @@ package commitlog
 import (
 	"context"
 	"fmt"
+	"io"
 	"os"
+	"runtime"
+	"strings"
 	"sync"
 	"testing"
 	"time"
@@ -64,6 +67,9 @@ type vEvent struct {
 	St   vState                 `json:"st"`
 	Obs  vObs                   `json:"obs"`
 	Rb   []vReadBack            `json:"rb"`
+	// Crash: the call panicked inside the commit log, or the log could not be
+	// opened again; the behaviour ends here and St is the last recorded state
+	Crash bool `json:"crash"`
 }
 
 // vTail is a persistent reader that is read by its own goroutine with a live
@@ -156,14 +162,51 @@ type vC01Run struct {
 	l       *commitLog
 	readers map[string]*Reader
 	rd      map[string]vRdState
+	dead    bool   // the log crashed or could not be reopened: the behaviour ends
+	last    vState // state recorded after the previous step
 }
 
-func (r *vC01Run) open() {
+func (r *vC01Run) open() error {
 	cl, err := New(vOpts(r.dir, r.cfg.MaxBytes, r.cfg.Occ))
 	if err != nil {
-		r.t.Fatalf("open commit log: %v", err)
+		return err
 	}
 	r.l = cl.(*commitLog)
+	return nil
+}
+
+// vPanicInHarness reports whether the innermost non-runtime frame of a panic is a
+// harness file (then it is a harness bug and is not turned into an observation).
+// vReadN reads at most n records without blocking.
+func vReadN(r *Reader, n int) (recs []vRec, errStr string) {
+	headers := make([]byte, msgSetHeaderLen)
+	ctx := vDoneCtx()
+	for i := 0; i < n; i++ {
+		m, off, ts, ep, err := r.ReadMessage(ctx, headers)
+		if err != nil {
+			if c := pkgErrors.Cause(err); c == io.EOF || c == ErrCommitLogReadonly || err == ErrCommitLogReadonly {
+				return recs, ""
+			}
+			return recs, "error:" + err.Error()
+		}
+		recs = append(recs, vDecode(m, off, ts, ep))
+	}
+	return recs, ""
+}
+
+func vPanicInHarness() bool {
+	pcs := make([]uintptr, 64)
+	n := runtime.Callers(3, pcs)
+	frames := runtime.CallersFrames(pcs[:n])
+	for {
+		f, more := frames.Next()
+		if !strings.HasPrefix(f.Function, "runtime.") {
+			return strings.Contains(f.File, "_verif_test.go")
+		}
+		if !more {
+			return true
+		}
+	}
 }
 
 func (r *vC01Run) state() vState {
@@ -296,7 +339,11 @@ func (r *vC01Run) step(id int, step map[string]interface{}) vEvent {
 	func() {
 		defer func() {
 			if p := recover(); p != nil {
+				if vPanicInHarness() {
+					panic(p)
+				}
 				obs.Err = fmt.Sprintf("panic:%v", p)
+				r.dead = true
 			}
 		}()
 		switch a {
@@ -339,8 +386,10 @@ func (r *vC01Run) step(id int, step map[string]interface{}) vEvent {
 			o := vInt(step, "o")
 			args["o"] = o
 			obs.Err = vErrClass(r.l.Truncate(o))
+			emptied := r.l.OldestOffset() == -1
 			for k, v := range r.rd {
-				if v.Alive && v.Next >= o {
+				// (a truncation that empties the log ends every reader, see CommitLog.tla)
+				if v.Alive && (v.Next >= o || emptied) {
 					r.rd[k] = vRdState{}
 					delete(r.readers, k)
 				}
@@ -362,7 +411,11 @@ func (r *vC01Run) step(id int, step map[string]interface{}) vEvent {
 			if err := r.l.Close(); err != nil {
 				obs.Err = vErrClass(err)
 			}
-			r.open()
+			if err := r.open(); err != nil {
+				obs.Err = "open_failed:" + err.Error()
+				r.dead = true
+				return
+			}
 			r.readers = map[string]*Reader{}
 			r.rd = map[string]vRdState{"r1": {}, "r2": {}}
 		case "NewReader":
@@ -385,7 +438,7 @@ func (r *vC01Run) step(id int, step map[string]interface{}) vEvent {
 				r.readers[name] = rdr
 				r.rd[name] = vRdState{Alive: true, C: c, Next: s, Parked: parked, Base: base}
 			}
-		case "Drain", "Tail":
+		case "Drain", "Tail", "Read":
 			name := vStr(step, "r")
 			args["r"] = name
 			rdr, ok := r.readers[name]
@@ -398,11 +451,21 @@ func (r *vC01Run) step(id int, step map[string]interface{}) vEvent {
 			if a == "Tail" && r.tails[name] == nil {
 				r.tails[name] = vStartTail(rdr)
 			}
-			obs.A, a = "Drain", "Drain"
-			if r.tails[name] != nil {
-				got, e = r.collectTail(name)
+			if a == "Read" && r.tails[name] == nil {
+				// at most k records, then the reader pauses (it carries on with a later step)
+				k := vInt(step, "k")
+				args["k"] = k
+				obs.A = "Read"
+				got, e = vReadN(rdr, int(k))
 			} else {
-				got, e = vDrain(rdr)
+				// (a Read of a reader that is being tailed by its own goroutine is a Drain:
+				// the trace records what was really done)
+				obs.A, a = "Drain", "Drain"
+				if r.tails[name] != nil {
+					got, e = r.collectTail(name)
+				} else {
+					got, e = vDrain(rdr)
+				}
 			}
 			obs.Ret = vFps(got)
 			if e != "" {
@@ -425,7 +488,14 @@ func (r *vC01Run) step(id int, step map[string]interface{}) vEvent {
 			r.t.Fatalf("unknown action %q", a)
 		}
 	}()
+	if r.dead {
+		if recs != nil {
+			args["recs"] = recs
+		}
+		return vEvent{T: id, A: a, Args: args, St: r.last, Obs: obs, Rb: []vReadBack{}, Crash: true}
+	}
 	st := r.state()
+	r.last = st
 	if recs != nil {
 		offs, _ := obs.Ret.([]int64)
 		for i := range recs {
@@ -457,12 +527,18 @@ func TestVerifCommitLog(t *testing.T) {
 			tails:   map[string]*vTail{},
 			rd:      map[string]vRdState{"r1": {}, "r2": {}},
 		}
-		run.open()
+		if err := run.open(); err != nil {
+			t.Fatalf("open commit log: %v", err)
+		}
 		st := run.state()
+		run.last = st
 		tw.Emit(vEvent{T: b.ID, A: "Open", Args: map[string]interface{}{}, St: st,
 			Obs: vObs{A: "Open", Ret: []int64{}}, Rb: run.readBacks(-1)})
 		for _, step := range b.Steps {
 			tw.Emit(run.step(b.ID, step))
+			if run.dead {
+				break
+			}
 			// readers that are blocked in their own goroutine were woken by the step:
 			// what they delivered is recorded as a Drain of that reader
 			for _, name := range []string{"r1", "r2"} {
@@ -472,7 +548,9 @@ func TestVerifCommitLog(t *testing.T) {
 			}
 		}
 		run.stopTails()
-		run.l.Close()
+		if !run.dead {
+			run.l.Close()
+		}
 		os.RemoveAll(run.dir)
 	}
 }
